@@ -862,7 +862,9 @@ def annotate(repo, contracts, out, vacuity=False, demote=()):
             s = map_pos(job.toks[f.fn_tok].pos)
             e = map_pos(job.toks[f.body_close].end)
             fr.append(dict(qual=f.qual, start=result.count('\n', 0, s) + 1, end=result.count('\n', 0, e) + 1,
-                           repo_line=rustlex.line_of(src, job.toks[f.fn_tok].pos)))
+                           repo_line=rustlex.line_of(src, job.toks[f.fn_tok].pos),
+                           in_wrap=bool(job.wrap and job.wrap[0] <= job.toks[f.fn_tok].pos < job.wrap[1]),
+                           has_body=f.body_open >= 0))
         fnranges[rel] = fr
     notes['renamed'] = {rel: job.renamed for rel, job in jobs.items() if job.renamed}
     # functions that exist now but not in the baseline and carry no contract (e.g. an extracted helper): callers see
